@@ -36,6 +36,15 @@ def value_repr(v):
     return t or "?"
 
 
+def const_repr(v):
+    """a constant's logged value as the resolver compares it from one pass to the next: number AND size
+    (what reads the constant sees both; since fix F48)"""
+    r = value_repr(v)
+    if v.get("t") == "int" and v.get("size") is not None:
+        r += "`" + str(v["size"])
+    return r
+
+
 def banks_of(result):
     out = []
     for b in result.get("banks", []):
@@ -104,8 +113,8 @@ def resolve_trace(case, result):
                              "prev": UNKNOWN if prev.get("t") != "int" else _int(prev["v"], "label value")})
             elif kind == "const":
                 early = "prev" not in e
-                v = value_repr(e["value"])
-                prev = v if early else value_repr(e["prev"])
+                v = const_repr(e["value"])
+                prev = v if early else const_repr(e["prev"])
                 judge = not (v.startswith("failed") or prev.startswith("failed") or v == "fn" or prev == "fn")
                 base.update({"ev": "const", "sym": e["sym"], "depth": e["depth"],
                              "v": v, "prev": prev, "early": early, "static": e["static"],
